@@ -1,6 +1,6 @@
 (* SamplerLemmas: proofs about SamplerModel (C07; used by C02). *)
 From Coq Require Import ZArith NArith List Bool Lia ZifyBool Permutation.
-From LT Require Import SamplerModel.
+From LT Require Import gen_Consts SamplerModel.
 Import ListNotations.
 Local Open Scope N_scope.
 
@@ -379,4 +379,76 @@ Proof.
     replace (8 * ((size + 7) / 8)) with ((8 * ((size + 7) / 8) - size) + size) by lia.
     rewrite N.pow_add_r. apply N.mod_mul. apply N.pow_nonzero. lia. }
   split; [|exact E]. unfold fibre_count. rewrite E. destruct (N.ltb_spec t 0); lia.
+Qed.
+
+(* ---- the residue cache ------------------------------------------------------------------------------------------ *)
+Definition in_range_m (m v : Z) : Prop := (0 <= v < Z.abs m)%Z.
+Definition cache_wf (c : cache) : Prop := (c_avail c <= length (c_vals c))%nat /\ Forall (in_range_m (c_mod c)) (c_vals c).
+
+(* every cached value is an ordinary residue draw from its own block of random bytes *)
+Lemma draw_many_spec m : forall k s vs s', draw_many k m s = Ret (vs, s') ->
+  length vs = k /\ Forall (in_range_m m) vs /\
+  exists chunks, s = concat chunks ++ s' /\ Forall (fun b => length b = N.to_nat (randomm_nbytes m)) chunks /\
+                 vs = map (fun b => Z.of_N (be_value b mod Z.abs_N m)) chunks.
+Proof.
+  induction k as [|k IH]; intros s vs s'; cbn [draw_many].
+  - intros E. injection E as <- <-. repeat split; [constructor|]. exists []. repeat split; constructor.
+  - destruct (grandomm m s) as [[v s1]| | | | |] eqn:G; cbn [bind fst snd]; try discriminate.
+    destruct (draw_many k m s1) as [[vs1 s2]| | | | |] eqn:D; cbn [bind fst snd]; try discriminate.
+    intros E. injection E as <- <-. apply IH in D. destruct D as (L & F & chunks & -> & FL & ->).
+    apply grandomm_range in G. destruct G as (_ & R & b & -> & Lb & ->).
+    repeat split; [cbn; now rewrite L | constructor; assumption|].
+    exists (b :: chunks). cbn [concat map]. rewrite app_assoc. repeat split. now constructor.
+Qed.
+
+Theorem cache_init_spec n m s c s' : cache_init n m s = Ret (c, s') ->
+  (1 <= n <= Z.to_nat TMCG_MAX_SSRANDOMM_CACHE)%nat /\ c_mod c = m /\ c_avail c = n /\ length (c_vals c) = n /\ cache_wf c /\
+  exists chunks, s = concat chunks ++ s' /\ Forall (fun b => length b = N.to_nat (randomm_nbytes m)) chunks /\
+                 c_vals c = map (fun b => Z.of_N (be_value b mod Z.abs_N m)) chunks.
+Proof.
+  unfold cache_init. destruct (Nat.eqb_spec n 0); cbn [orb]; [discriminate|].
+  destruct (Nat.ltb_spec (Z.to_nat TMCG_MAX_SSRANDOMM_CACHE) n); [discriminate|].
+  destruct (draw_many n m s) as [[vs s1]| | | | |] eqn:D; cbn [bind fst snd]; try discriminate.
+  intros E. injection E as <- <-. apply draw_many_spec in D. destruct D as (L & F & X).
+  cbn. unfold cache_wf. cbn. repeat split; try lia; assumption.
+Qed.
+
+(* range and provenance of every query, in both branches *)
+Theorem cache_get_spec c m s v c' s' : cache_wf c -> cache_get c m s = Ret ((v, c'), s') ->
+  in_range_m m v /\ cache_wf c' /\
+  ((m = c_mod c /\ (0 < c_avail c)%nat /\ nth_error (c_vals c) (c_avail c - 1) = Some v /\
+    c_avail c' = (c_avail c - 1)%nat /\ c_vals c' = c_vals c /\ c_mod c' = c_mod c /\ s' = s) \/
+   ((m <> c_mod c \/ c_avail c = O) /\ grandomm m s = Ret (v, s') /\ c' = c)).
+Proof.
+  intros (WA & WF). unfold cache_get.
+  destruct (Z.eqb_spec m (c_mod c)) as [Em|NEm]; cbn [andb].
+  - destruct (Nat.ltb_spec 0 (c_avail c)) as [Ha|Ha].
+    + destruct (nth_error (c_vals c) (c_avail c - 1)) as [v0|] eqn:N; [|discriminate].
+      intros E. injection E as <- <- <-. split.
+      * rewrite Em. rewrite Forall_forall in WF. apply WF. eapply nth_error_In; eassumption.
+      * split; [unfold cache_wf; cbn; split; [lia | assumption]|]. left. cbn. repeat split; auto.
+    + destruct (grandomm m s) as [[v0 s0]| | | | |] eqn:G; cbn [bind fst snd]; try discriminate.
+      intros E. injection E as <- <- <-. pose proof (grandomm_range _ _ _ _ G) as (_ & R & _).
+      split; [exact R|]. split; [split; assumption|]. right. repeat split; auto. right. lia.
+  - destruct (grandomm m s) as [[v0 s0]| | | | |] eqn:G; cbn [bind fst snd]; try discriminate.
+    intros E. injection E as <- <- <-. pose proof (grandomm_range _ _ _ _ G) as (_ & R & _).
+    split; [exact R|]. split; [split; assumption|]. right. repeat split; auto.
+Qed.
+
+Lemma cache_queries_range : forall ms c s vs s', cache_wf c -> cache_queries c ms s = Ret (vs, s') -> Forall2 in_range_m ms vs.
+Proof.
+  induction ms as [|m ms IH]; intros c s vs s' W; cbn [cache_queries].
+  - intros E. injection E as <- <-. constructor.
+  - destruct (cache_get c m s) as [[[v c1] s1]| | | | |] eqn:G; cbn [bind fst snd]; try discriminate.
+    destruct (cache_queries c1 ms s1) as [[vs1 s2]| | | | |] eqn:Q; cbn [bind fst snd]; try discriminate.
+    intros E. injection E as <- <-. destruct (cache_get_spec _ _ _ _ _ _ W G) as (R & W1 & _).
+    constructor; [exact R | eapply IH; eassumption].
+Qed.
+
+(* whatever cache was initialised (any modulus q, any size) and whatever moduli are queried afterwards:
+   every answer lies in the range of the modulus it was asked for *)
+Theorem cache_run_range n q ms s vs s' : cache_run n q ms s = Ret (vs, s') -> Forall2 in_range_m ms vs.
+Proof.
+  unfold cache_run. destruct (cache_init n q s) as [[c s1]| | | | |] eqn:I; cbn [bind fst snd]; try discriminate.
+  apply cache_init_spec in I. destruct I as (_ & _ & _ & _ & W & _). now apply cache_queries_range.
 Qed.
